@@ -415,7 +415,7 @@ func (p C14) Run(c *sim.Ctx, t *sim.Tape) sim.RunResult {
 	}
 
 	// ---- queries
-	nq := t.Range(10, 30)
+	nq := t.Range(10, 30) * deeper(c, t)
 	if user != nil {
 		// the administrator stands in the directory where relative patterns are resolved.
 		if t.Chance(300) {
